@@ -61,6 +61,46 @@ type world struct {
 	conn   hsmsss.Connection
 	log    *capLogger
 	ln     *netsim.Listener // harness listener (only when the library is active)
+
+	// every socket / listener ever handed to the library (leak checks)
+	lmu          sync.Mutex
+	libConns     []*netsim.Conn
+	libListeners []*recListener
+}
+
+// recListener records the connections the library accepts.
+type recListener struct {
+	*netsim.Listener
+	w *world
+}
+
+func (l *recListener) Accept() (net.Conn, error) {
+	c, err := l.Listener.Accept()
+	if err != nil {
+		return nil, err
+	}
+	l.w.lmu.Lock()
+	l.w.libConns = append(l.w.libConns, c.(*netsim.Conn))
+	l.w.lmu.Unlock()
+	return c, nil
+}
+
+// leaked reports library-side sockets / listeners that were handed out and never closed.
+func (w *world) leaked() []string {
+	w.lmu.Lock()
+	defer w.lmu.Unlock()
+	var out []string
+	for _, c := range w.libConns {
+		if !c.Closed() {
+			out = append(out, fmt.Sprintf("conn #%d", c.ID))
+		}
+	}
+	for i, l := range w.libListeners {
+		if !l.Closed() {
+			out = append(out, fmt.Sprintf("listener #%d", i))
+		}
+	}
+	return out
 }
 
 type worldOpt struct {
@@ -79,6 +119,9 @@ func newWorld(o worldOpt) (*world, error) {
 			if err != nil {
 				return nil, err
 			}
+			w.lmu.Lock()
+			w.libConns = append(w.libConns, c)
+			w.lmu.Unlock()
 			return c, nil
 		}),
 		hsmsss.WithListener(func(ctx context.Context, network, address string) (net.Listener, error) {
@@ -86,7 +129,11 @@ func newWorld(o worldOpt) (*world, error) {
 			if err != nil {
 				return nil, err
 			}
-			return l, nil
+			rl := &recListener{Listener: l, w: w}
+			w.lmu.Lock()
+			w.libListeners = append(w.libListeners, rl)
+			w.lmu.Unlock()
+			return rl, nil
 		}),
 		hsmsss.WithConnectionOption(hsms.WithLogger(w.log)),
 	}
